@@ -114,7 +114,7 @@ TEMPLATE_PATH = "templates/plot.tex"
 KINDS = ["csv", "tex", "pdf", "png"]
 MKF = ["plain", "dir", "dirfmt", "prefix", "suffix", "presuf", "ctxprefix", "second-noow", "second-ow",
        "ctxname", "ctxdir-empty", "ctxext-empty", "mkf-ext", "suffix-scaled", "prefix-scaled", "dir-optional", "prefix-alt", "dir-then-name",
-       "name-with-dir", "dir-from-name"]
+       "name-with-dir", "dir-from-name", "dir-dotdot"]
 
 
 def template_text(version, newline=False):
@@ -132,6 +132,13 @@ def expected_tex(version, csvpath, name, newline=False):
             "\\input{%s}\n"
             "%% %s\n"
             "\\end{plot}") % (version, csvpath, name) + ("\n" if newline else "")
+
+
+NAME_TAIL = [""]
+
+
+def pname(p):
+    return "p%d%s" % (p, NAME_TAIL[0])
 
 
 def make_filenames(variant):
@@ -169,6 +176,9 @@ def make_filenames(variant):
     if variant == "name-with-dir":
         # the documented "{{variable.type}}/{{variable.name}}" pattern: a name with a directory part
         return [MF("grp/{{plot.name}}")]
+    if variant == "dir-dotdot":
+        # a directory given relative to a sibling
+        return [MF("{{plot.name}}", dirname="y2024/../common")]
     if variant == "dir-from-name":
         # one element sets the name and a directory that refers to the name it has just set
         return [MF("{{plot.name}}", dirname="{{output.filename}}")]
@@ -208,9 +218,11 @@ def expected_name(variant, name):
         return "", "pre_" + name
     if variant == "dir-optional":
         # only even plots carry extra.dir
-        return ("d_a" if int(name[1:]) % 2 == 0 else ""), name
+        return ("d_a" if int(name[1]) % 2 == 0 else ""), name
     if variant == "name-with-dir":
         return "", "grp/" + name
+    if variant == "dir-dotdot":
+        return "y2024/../common", name
     if variant == "dir-from-name":
         return name, name
     if variant == "suffix-scaled":
@@ -269,6 +281,9 @@ def gen_scenario(tape):
     sc = Spec()
     sc.nplots = 1 + tape.draw(3, "nplots")
     sc.mkf = tape.choice(MKF, "makefilename")
+    # plot names p0, p1, ... or names that end in a letter of "tex" (p0x, p1x, ...)
+    NAME_TAIL[0] = tape.choice(["", "", "x", "e", "t"], "name-ending")
+    sc.name_tail = NAME_TAIL[0]
     sc.w1 = tape.weighted([(6, "plain"), (1, "existing_unchanged"), (1, "overwrite")], "write1")
     sc.w2 = tape.weighted([(6, "plain"), (1, "existing_unchanged"), (1, "overwrite")], "write2")
     sc.ow_pdf = tape.chance(1, 8, "latex-overwrite")
@@ -345,11 +360,11 @@ class World(object):
         vals = []
         for p in range(self.sc.nplots):
             h = lena.structures.histogram([0, 1, 2], [1000 + self.data_version[p], 7 + p])
-            ctx = {"plot": {"name": "p%d" % p}}
+            ctx = {"plot": {"name": pname(p)}}
             if self.sc.mkf == "ctxprefix":
                 ctx["output"] = {"prefix": "c_"}
             elif self.sc.mkf == "ctxname":
-                ctx["output"] = {"filename": "given_p%d" % p}
+                ctx["output"] = {"filename": "given_" + pname(p)}
             elif self.sc.mkf == "ctxdir-empty":
                 ctx["output"] = {"dirname": ""}
             elif self.sc.mkf == "ctxext-empty":
@@ -397,7 +412,7 @@ class World(object):
         return self._seq
 
     def paths(self, p):
-        d, f = expected_name(self.sc.mkf, "p%d" % p)
+        d, f = expected_name(self.sc.mkf, pname(p))
         base = "/".join(x for x in (OUTDIR, d, f) if x)
         paths = dict((k, self.fs.norm(base + "." + k)) for k in KINDS)
         # the image file carries the extension of the chosen format; it is still called "png" here
@@ -412,6 +427,7 @@ class World(object):
 
 def run(tape):
     res = RunResult()
+    NAME_TAIL[0] = ""
     if tape.weighted([(3, "flat"), (1, "grouped")], "variant") == "grouped":
         from . import c19g
         return c19g.run_grouped(tape, res, World, write_mod, latex_mod, png_mod)
@@ -618,7 +634,7 @@ def check_run(w, sc, res, r, spec, rec, out, sub, start_image, oplog_start, dele
     fs = w.fs
     now = fs.image()
     prev = w.prev
-    names = ["p%d" % p for p in range(sc.nplots)]
+    names = [pname(p) for p in range(sc.nplots)]
     ops = fs.oplog[oplog_start:]
     writes = {}          # path -> number of truncating opens / child writes in this run
     for op, path, nbytes, tick in ops:
